@@ -15,7 +15,7 @@ for name in sorted(res):
     r = res[name]
     meta = json.loads((V / "seeded" / name / "meta.json").read_text()) if (V / "seeded" / name / "meta.json").exists() else {}
     tgt = meta.get("property", name.split("-")[0])
-    benign = meta.get("kind") == "benign" or name.split("-")[-1] in ("r", "s", "t", "u", "v", "w", "x", "y")
+    benign = meta.get("kind") == "benign" or name.split("-")[-1] in ("r", "s", "t", "u", "v", "w", "x", "y", "z", "q")
     if "error" in r:
         lines.append(f"| {name} | {tgt} | {'benign' if benign else 'breaking'} | (patch error) | {r['error'][:80]} |")
         continue
